@@ -82,9 +82,8 @@ deriving Repr, DecidableEq
 def parseContent (c : Bytes) : Except HelloErr Hello :=
   if c = [49] then .ok .broadcast
   else if iosPrefix.isPrefixOf c || andPrefix.isPrefixOf c then .ok (.client c)
-  else match splitBar c with
-    | [i, n] => .ok (.spa i n)
-    | _ => .error .valueErr
+  else if bar ∈ c then .ok (.spa (c.takeWhile (· != bar)) ((c.dropWhile (· != bar)).drop 1))   -- `content.split(b"|", 1)`
+  else .error .valueErr
 
 /-- `handle` followed by the `handler.spa_identifier` / `handler.spa_name` reads of `_async_on_discovered` -/
 def codeParse (p : Bytes) : Except HelloErr (Bytes × Bytes) :=
